@@ -337,6 +337,23 @@ namespace
 
         // take every node the pool reports as free through the composable interface (never grows):
         // the number obtained is what the reported capacity is worth
+        // memory_pool_collection::reserve(): capacity bytes of the arena go onto the free list for sz
+        void reserve(const Cmd& c)
+        {
+            if (std::string(cur->family()) != "coll")
+                return;
+            std::size_t sz = static_cast<std::size_t>(c.arg(0, 1)), req = static_cast<std::size_t>(c.arg(1, 64));
+            Scal        s0 = cur->scal(sz);
+            auto&       w  = world();
+            long        c0 = w.up_calls, f0 = w.up_fails, d0 = w.up_frees;
+            bool        has = false;
+            std::string r   = classify([&] { has = cur->reserve(sz, req); });
+            Scal        s1  = cur->scal(sz);
+            Ev("reserve").i("o", cur->o).u("sz", sz).u("req", req).s("r", has || r != "ok" ? r : "unsupported")
+                .i("cap0", s0.cap).i("cap1", s1.cap).i("fn0", s0.fn).i("fn1", s1.fn).ic("ncap0", s0.ncap).ic("ncap1", s1.ncap)
+                .i("ups", w.up_calls - c0).i("upf", w.up_fails - f0).i("ufs", w.up_frees - d0);
+        }
+
         void drain(const Cmd& c)
         {
             std::string fam = cur->family();
@@ -759,6 +776,8 @@ namespace
                         sweep();
                     else if (op == "drain")
                         drain(c);
+                    else if (op == "rsv")
+                        reserve(c);
                     else if (op == "san")
                         sib_alloc(c);
                     else if (op == "tdx")
